@@ -63,7 +63,7 @@ theorem exStep_quit_saved (ed ed' : Ed) (r : Int) (ln : Bytes) (rest : List Byte
     have : (e1.modifiedAt 0).2.xquit = true := hq
     rw [modifiedAt_xquit] at this
     exact this
-  obtain ⟨_, hsaved⟩ := quit_saved 37 { ed with input := rest, out := [], msg := [], calls := 0, fired := 0 } e1 [] ln []
+  obtain ⟨_, hsaved⟩ := quit_saved (FUEL - 3) { ed with input := rest, out := [], msg := [], calls := 0, fired := 0 } e1 [] ln []
     none r (hi.to (by rfl) (by rfl) (by rfl)) (hasBang_quitWords hln) hq0 hr hq1
   intro j b hb
   refine settled_savedAt hinv' (C20.mem_of_getD _ _ _ hb).1 ?_
@@ -97,14 +97,14 @@ theorem save_makes_stale {ed ed' : Ed} {lb : Lb} {b0 : Nat} {e : Int} {path : By
 /-! ### `q` on a table of clean buffers -/
 
 theorem exStep_q (ed : Ed) (rest : List Bytes) (hin : ed.input = [113] :: rest) (r : Int) (e1 : Ed)
-    (hr : runCmd 38 { ed with input := rest, out := [], msg := [], calls := 0, fired := 0 } "ec_quit" [] [113] [] none
+    (hr : runCmd (FUEL - 2) { ed with input := rest, out := [], msg := [], calls := 0, fired := 0 } "ec_quit" [] [113] [] none
       = some (r, e1)) :
     exStep ed = some (r, { (e1.modifiedAt 0).2 with regs := (e1.modifiedAt 0).2.regs.put 58 [113] 1, faults := [] }) := by
   unfold exStep
   rw [hin]
   simp only []
-  have hF : FUEL = 38 + 2 := rfl
-  rw [hF, exCommand_single 38 _ _ [113] [] [113] [113] [] [113] [] [] none "ec_quit" (by decide) (by decide)
+  have hF : exCommand FUEL = exCommand ((FUEL - 2) + 2) := rfl
+  rw [hF, exCommand_single (FUEL - 2) _ _ [113] [] [113] [113] [] [113] [] [] none "ec_quit" (by decide) (by decide)
     (by decide +kernel) (by decide +kernel) (by decide +kernel) (by decide +kernel)
     (exTxt_none _ _ (by decide) (by decide) (by decide)), hr]
   rfl
@@ -132,7 +132,7 @@ theorem q_quits_when_all_clean (ed : Ed) (rest : List Bytes) (hin : ed.input = [
     (hcl : allClean ed = true) :
     ∃ ed', exStep ed = some (0, ed') ∧ ed'.xquit = true ∧ ed'.files = ed.files ∧
       (ed'.bufs.map bufKey).Perm (ed.bufs.map bufKey) := by
-  obtain ⟨e1, hr, hk⟩ := C02.Ex.quit_allowed_when_clean 37
+  obtain ⟨e1, hr, hk⟩ := C02.Ex.quit_allowed_when_clean (FUEL - 3)
     { ed with input := rest, out := [], msg := [], calls := 0, fired := 0 } [] [113] [] none
     (by decide) (by decide) (by decide) (by decide) (allClean_spec hcl)
   refine ⟨_, exStep_q ed rest hin 0 _ hr, ?_, ?_, ?_⟩
